@@ -402,9 +402,11 @@ func (fr *Frame) divFacts(x, y Term) {
 		implies(app(SBool, ">=", x, intLit(0)), app(SBool, ">=", q, intLit(0))))))
 }
 
-// mul builds a product; for a product of two non-literal terms it adds the
-// tautologies  a == c ==> a*b == c*b  (c = 0..64, both factors) so that a
-// factor known to be small is handled by case analysis in linear arithmetic.
+// mul builds a product; for a product of two non-literal terms it adds
+// tautologies that let linear arithmetic handle the usual steps:
+//   a == c ==> a*b == c*b                    (c = 0,1,2, both factors)
+//   for two products a*b1, a*b2 sharing a factor, with d = b2-b1:
+//   d == 0,1,-1 ==> a*b2 == a*b1 + d*a ;  a >= 0 && d >= 2 ==> a*b2 >= a*b1 + 2a ; symmetric for d <= -2
 func (c *Ctx) mul(a, b Term) Term {
 	p := app(SInt, "*", a, b)
 	if _, ok := litValue(a); ok {
@@ -416,18 +418,44 @@ func (c *Ctx) mul(a, b Term) Term {
 	if strings.Contains(a.S, "!q") || strings.Contains(b.S, "!q") {
 		return p // bound variables: no ground hints
 	}
+	a, b = c.name("f", a), c.name("f", b)
+	p = app(SInt, "*", a, b)
 	key := "mulhint:" + p.S
 	if c.declared[key] {
 		return p
 	}
 	c.declared[key] = true
-	a, b = c.name("f", a), c.name("f", b)
-	p = app(SInt, "*", a, b)
 	var hs []Term
-	for k := int64(0); k <= 64; k++ {
+	for k := int64(0); k <= 2; k++ {
 		hs = append(hs, implies(eq(a, intLit(k)), eq(p, app(SInt, "*", intLit(k), b))))
 		hs = append(hs, implies(eq(b, intLit(k)), eq(p, app(SInt, "*", intLit(k), a))))
 	}
+	ge0 := func(t Term) Term { return app(SBool, ">=", t, intLit(0)) }
+	hs = append(hs, implies(and(ge0(a), ge0(b)), ge0(p)))
+	pair := func(f, o1, o2, p1, p2 Term) {
+		d := c.name("d", app(SInt, "-", o2, o1))
+		hs = append(hs,
+			implies(eq(d, intLit(0)), eq(p2, p1)),
+			implies(eq(d, intLit(1)), eq(p2, app(SInt, "+", p1, f))),
+			implies(eq(d, intLit(-1)), eq(p2, app(SInt, "-", p1, f))),
+			implies(and(ge0(f), app(SBool, ">=", d, intLit(2))), app(SBool, ">=", p2, app(SInt, "+", p1, app(SInt, "*", intLit(2), f)))),
+			implies(and(ge0(f), app(SBool, "<=", d, intLit(-2))), app(SBool, "<=", p2, app(SInt, "-", p1, app(SInt, "*", intLit(2), f)))))
+	}
+	for _, q := range c.products {
+		switch {
+		case q.a.S == a.S:
+			pair(a, q.b, b, q.p, p)
+		case q.b.S == b.S:
+			pair(b, q.a, a, q.p, p)
+		case q.a.S == b.S:
+			pair(b, q.b, a, q.p, p)
+		case q.b.S == a.S:
+			pair(a, q.a, b, q.p, p)
+		}
+	}
+	c.products = append(c.products, product{a, b, p})
 	c.assume(and(hs...))
 	return p
 }
+
+type product struct{ a, b, p Term }
